@@ -310,6 +310,20 @@ fn aligned_rounding_pair(ctx: &mut Ctx, emin: i64, emax: i64) -> (Dd, Dd) {
     (a, b)
 }
 
+/// the mixed-form analogue: an aligned double-double and an f64 whose significand sits just
+/// above 1 or just below 2 (where the proven 2u^2 / 3u^2 bounds of Algorithms 4, 9, 15 are approached)
+fn aligned_rounding_tf(ctx: &mut Ctx, emin: i64, emax: i64) -> (Dd, f64) {
+    // keep the near-tie low word a normal number
+    let (a, _) = aligned_rounding_pair(ctx, emin.max(-960), emax);
+    let e = exp_in(ctx, emin.max(-1022), (emax - 1).min(1023));
+    let raw = ctx.bits(52);
+    let k = 2 + ctx.below(20) as u32;
+    let m = if ctx.flag() { (raw >> k).max(1) } else { ((1u64 << 52) - 1) - (raw >> k) };
+    let f = f64::from_bits(((ctx.flag() as u64) << 63) | (((e + 1023) as u64) << 52) | m);
+    ctx.label("f64:aligned-rounding");
+    (a, f)
+}
+
 #[derive(Clone, Copy, PartialEq)]
 enum Form {
     TT,
@@ -366,8 +380,9 @@ fn c03_op(ctx: &mut Ctx, sub: bool, form: Form) {
             ctx.set_nontrivial(!exact.is_zero() && exact.abs().mul_pow2(1) < m);
         }
         _ => {
-            a = operand(ctx, -1000, 1000);
-            f = operand_f64(ctx, a, -1000, 1000);
+            let a0 = operand(ctx, -1000, 1000);
+            let f0 = operand_f64(ctx, a0, -1000, 1000);
+            (a, f) = if ctx.chance(1, 8) { aligned_rounding_tf(ctx, -1000, 1000) } else { (a0, f0) };
             a.key(ctx);
             ctx.key_f64(f);
             note_dd(ctx, "a", a);
@@ -590,6 +605,7 @@ fn c04_op(ctx: &mut Ctx, form: Form) {
         _ => {
             let a = operand(ctx, -450, 450);
             let f = operand_f64(ctx, a, -450, 450);
+            let (a, f) = if ctx.chance(1, 6) { aligned_rounding_tf(ctx, -450, 450) } else { (a, f) };
             a.key(ctx);
             ctx.key_f64(f);
             note_dd(ctx, "a", a);
@@ -784,10 +800,11 @@ fn c05_op(ctx: &mut Ctx, form: DForm) {
         }
         DForm::TF | DForm::AssignTF => {
             let a = operand(ctx, -450, 450);
-            let mut f = f64_related(ctx, a, -450, 449);
+            let mut f = if ctx.flag() { f64_related(ctx, a, -450, 449) } else { operand_f64(ctx, a, -450, 450) };
             if f == 0.0 {
                 f = 1.0;
             }
+            let (a, f) = if ctx.chance(1, 6) { aligned_rounding_tf(ctx, -450, 450) } else { (a, f) };
             a.key(ctx);
             ctx.key_f64(f);
             note_dd(ctx, "a", a);
@@ -995,7 +1012,7 @@ fn rem_pair(ctx: &mut Ctx) -> (Dd, Dd) {
         return (a, b);
     }
     let b = dd_exp(ctx, -400, 399, false);
-    let c = ctx.weighted(&[5, 4, 4, 3, 2]);
+    let c = ctx.weighted(&[5, 4, 4, 3, 2, 2]);
     let in_range = |d: Dd| d.valid() && d.hi != 0.0 && exponent(d.hi) >= -400 && exponent(d.hi) < 400;
     let a = match c {
         0 => {
@@ -1023,6 +1040,25 @@ fn rem_pair(ctx: &mut Ctx) -> (Dd, Dd) {
             let v = b.big().mul(&Big::from_u64(k));
             let tiny = v.abs().mul_pow2(-t);
             let v = if ctx.flag() { v.add(&tiny) } else { v.sub(&tiny) };
+            let v = if ctx.flag() { v.neg() } else { v };
+            crate::p_conv::dd_from_big(&v)
+        }
+        5 => {
+            // the top of the stated quotient range (|a/b| <= 2^90) and the widths at which an
+            // integer stops fitting a word: q = 2^m - d + frac, d of every bit length up to 40
+            ctx.label("quotient:range-edge");
+            let m = [90, 90, 90, 89, 64, 63, 53, 52][ctx.below(8) as usize];
+            let db = ctx.range(0, 40) as u32;
+            let d = if db == 0 { 0 } else { (ctx.word() >> (64 - db)) | (1u64 << (db - 1)) };
+            let frac = match ctx.below(4) {
+                0 => Big::zero(),
+                1 => Big::pow2(-1),
+                2 => Big::from_f64((ctx.bits(20) as f64 + 1.0) / 2097152.0),
+                _ => Big::pow2(-(ctx.range(2, 14))),
+            };
+            // strictly inside the range: q <= 2^m - d - 1 + frac < 2^m
+            let q = Big::pow2(m).sub(&Big::from_u64(d + 1)).add(&frac);
+            let v = b.big().mul(&q);
             let v = if ctx.flag() { v.neg() } else { v };
             crate::p_conv::dd_from_big(&v)
         }
